@@ -95,6 +95,47 @@ def _rebound_first(body, name):
     return False
 
 
+_PURE_CALLS = ("len", "enumerate", "isinstance", "list", "tuple", "iter", "sorted", "reversed", "any", "all", "bool", "str", "repr", "zip",
+               "min", "max", "sum", "set", "frozenset", "dict", "print")
+
+
+def _never_mutated(fn_ast, name):
+    """nowhere in the function is the object denoted by `name` mutated in place or handed to code that could mutate it (only then is an
+    alias of it harmless): no store below it, no mutating method on it, no augmented assignment, not passed to a call other than a few
+    known pure builtins"""
+    if fn_ast is None:
+        return False
+    for n in ast.walk(fn_ast):
+        if isinstance(n, (ast.Subscript, ast.Attribute)) and isinstance(n.ctx, (ast.Store, ast.Del)):
+            r = n
+            while isinstance(r, (ast.Subscript, ast.Attribute)):
+                r = r.value
+            if isinstance(r, ast.Name) and r.id == name:
+                return False
+        if isinstance(n, ast.AugAssign):
+            r = n.target
+            while isinstance(r, (ast.Subscript, ast.Attribute)):
+                r = r.value
+            if isinstance(r, ast.Name) and r.id == name:
+                return False
+        if isinstance(n, ast.Call):
+            if isinstance(n.func, ast.Attribute) and n.func.attr in _MUTATORS:
+                r = n.func.value
+                while isinstance(r, (ast.Subscript, ast.Attribute)):
+                    r = r.value
+                if isinstance(r, ast.Name) and r.id == name:
+                    return False
+            callee_pure = isinstance(n.func, ast.Name) and n.func.id in _PURE_CALLS
+            if not callee_pure:
+                for a in list(n.args) + [k.value for k in n.keywords]:
+                    r = a
+                    while isinstance(r, (ast.Subscript, ast.Attribute, ast.Starred)):
+                        r = r.value
+                    if isinstance(r, ast.Name) and r.id == name:
+                        return False
+    return True
+
+
 def _escaping_names(body):
     """names whose value may be stored into a container (or yielded) somewhere in the statements"""
     out = set()
@@ -631,6 +672,12 @@ class StmtExec(Exec):
                 raise Unsupported("loop-modified variable %s needs a declared type (locals)" % name)
         if st.out is not None and contains_yield(body):
             st.out = fresh(st.out.ty, "_out")
+        # a PARAMETER that the loop body only rebinds (`rules = rule["children"]`) and that is mutated in place nowhere in the
+        # function: the caller's object is untouched, whatever the name denotes after the loop (frame obligations are about objects)
+        fn_ast = getattr(self.ctx, "func_ast", None)
+        for name in sorted(roots):
+            if ("old:" + name) in st.env and _never_mutated(fn_ast, name):
+                st.env["__rebound__"] = frozenset(set(st.env.get("__rebound__", ())) | {name})
 
     def check_inv(self, kind, spec, st, line, k):
         sub = SpecEval(self.ctx, self.ctx.contract.ns)
@@ -783,7 +830,8 @@ class StmtExec(Exec):
             for o in self.run_block(s.body, it):
                 if o.kind in ("normal", "continue"):
                     # the loop head state is reused for every iteration: aliases created by one iteration must not outlive it
-                    extra = {n for n in set(o.st.env.get("__aliased__", ())) - head_al if not _rebound_first(s.body, n)}
+                    extra = {n for n in set(o.st.env.get("__aliased__", ())) - head_al
+                             if not _rebound_first(s.body, n) and not _never_mutated(getattr(self.ctx, "func_ast", None), n)}
                     if extra:
                         raise Unsupported("names %s are still shared with a container at the end of a loop iteration (line %d)"
                                           % (sorted(extra), s.lineno))
@@ -880,7 +928,8 @@ class StmtExec(Exec):
                 dec0 = coerce(sub.ev_str(spec["decreases"], State(dict(it.env), it.pc)), INT).t
             for o in self.run_block(s.body, it):
                 if o.kind in ("normal", "continue"):
-                    extra = {n for n in set(o.st.env.get("__aliased__", ())) - head_al if not _rebound_first(s.body, n)}
+                    extra = {n for n in set(o.st.env.get("__aliased__", ())) - head_al
+                             if not _rebound_first(s.body, n) and not _never_mutated(getattr(self.ctx, "func_ast", None), n)}
                     if extra:
                         raise Unsupported("names %s are still shared with a container at the end of a loop iteration (line %d)"
                                           % (sorted(extra), s.lineno))
